@@ -132,7 +132,7 @@ def discharge(obligations: list, timeout_ms=10000, jobs=None, portfolio=True, tm
         ob.status, ob.backend, ob.time_s, ob.model, ob.note = status, backend, dt, model, note
 
 
-def canary(hyps, timeout_ms=5000):
+def canary(hyps, timeout_ms=1500):
     """vacuity guard: hypotheses must be satisfiable (the goal False must NOT be provable)"""
     s = z3.Solver()
     s.set('timeout', timeout_ms)
